@@ -226,7 +226,48 @@ func init() {
 					} else {
 						kinds[k] = true
 					}
+					// one object per element: the object is made in the iteration that appends it (an object made before the loop
+					// is decoded into again and again, and every list entry is the same pointer)
+					ov := tail[0].V
+					if mi, isMI := ov.(*ssa.MakeInterface); isMI {
+						ov = mi.X
+					}
+					if al, isAl := ov.(*ssa.Alloc); isAl {
+						if l := innermostLoopOf(c.Block()); l != nil && !l.Body[al.Block()] {
+							ok = false
+							notes = append(notes, "the appended "+desc(al)+" is made outside the loop over the elements")
+						}
+					}
 				})
+				// the whole list is decoded: the loop over the raw elements is left only at its end or with an error - a nil
+				// error is never returned from inside an iteration (`break` after the first proof of a kind drops the rest unseen)
+				wholeOK, wholeWhy := false, "no loop over the decoded raw elements found"
+				for _, b := range fn.Blocks {
+					l := findLoop(b)
+					if l == nil || len(l.Latch) == 0 {
+						continue
+					}
+					if kind, _ := loopTrip(l); kind != "coll" {
+						continue
+					}
+					q := &MustPass{P: P, NoInterproc: true, Match: func(a Atom) bool { return false }}
+					q.init()
+					walls := map[*ssa.BasicBlock]bool{l.Header: true}
+					inside := false
+					for bb := range l.Body {
+						if bb == l.Header {
+							continue
+						}
+						if path := forwardToAccept(q, fn, bb, walls, AcceptNilErr(0)); path != "" {
+							inside = true
+						}
+					}
+					wholeOK, wholeWhy = !inside, ""
+					if inside {
+						wholeWhy = "a nil error can be returned from inside an iteration (the rest of the list is not looked at)"
+					}
+				}
+				R.decide("C08.e", FuncKey(fn)+":whole-list", "a nil error is returned only after the loop over the raw elements ran to its end", wholeOK, wholeWhy, P.Pos(fn.Pos()))
 				ok = ok && n >= 1 && kinds["new:gabi.ProofD"] && kinds["new:gabi.ProofU"]
 				R.decide("C08.e", FuncKey(fn)+":elements", "each decoded element is a fresh proof object appended only when its discriminating field is present", ok, strings.Join(notes, "; ")+fmt.Sprintf(" (%d appends)", n), P.Pos(fn.Pos()))
 				mp(P, R, "C08.e", FuncKey(fn)+":unknown-rejected", "a nil error is returned only after every element was classified (unknown => error)", fn, AcceptNilErr(0), &MustPass{Instr: func(f *ssa.Function, i ssa.Instruction) bool {
